@@ -2,6 +2,7 @@
 stated non-triviality rule and the assumptions reported in the evidence."""
 
 from . import fuzz as _fz
+from . import build
 
 SPECS = {}
 HOOK_COMMITS = []
@@ -334,4 +335,40 @@ SPECS['C06'] = dict(
     assumptions=['tasks are YEARLY rules in the future (no retirement during the history)', 'a checkpoint operation that saw a failing call is not counted as completed'],
     quick=dict(workers=16, cases=5, size=100, timeout=1500, opts={'maxops': 24, 'kinds': 2}),
     thorough=dict(workers=16, cases=400, size=100, timeout=7200, opts={'maxops': 80}),
+)
+
+
+def _xrun_opts(sut):
+    return {'echsx': sut.program('echsx', 'plain'), 'shim': build.preload_shim()}
+
+
+SPECS['C13'] = dict(
+    kind='native', drivers=['p_c13.cpp'], with_lib=False, runtime_opts=_xrun_opts,
+    level='exploration',
+    technique='property-based testing of the real echsx(1) process built from the tree (rapidcheck-generated execution requests; LD_PRELOAD shim records sendmail input, mkstemp and alarm)',
+    level_text=('The echsx binary is rebuilt from the working tree and run on generated VTODO requests: each of the 20 documented {stdout file, stderr file, same file, mail-out, mail-err} rows in turn x '
+                'stdout/stderr sizes from 0 to 700 kB (beyond pipe capacity), written concurrently, x exit codes and fatal signals x shell, umask, stdin file, mail-run, attendee. The job records how it was run '
+                '(run count, cwd, umask, /proc/$$/exe, stdin copy); stdout and stderr use disjoint alphabets so that every output file and the recorded mail body can be projected back onto the two streams and '
+                'compared byte for byte; logged mkstemp names must be gone; the journal must carry the true exit status or signal and times bracketing the run.'),
+    level_note='echsx runs without sanitizers (plain build) under an LD_PRELOAD shim; setuid/setgid are exercised with the uid the check runs as; wall-clock is used only to bracket journal times (+-1 s)',
+    rule=('case = (row 1..20 cycled, osize, esize in {0,1,17,4096,65536,65537,200000,700000} or random <= 300000, exit 0 / 1..255 / signal in {TERM,KILL,SEGV,ABRT,INT}, sh|bash, umask, ifile, mailrun, attendee, concurrent writers); '
+          'non-trivial = more than 64 KiB of output or a non-zero end; distinct = case text'),
+    assumptions=['/bin/sh and /bin/bash exist and differ (dash vs bash)'],
+    quick=dict(workers=16, cases=60, size=100, timeout=1500),
+    thorough=dict(workers=16, cases=1500, size=100, timeout=7200),
+)
+
+SPECS['C14'] = dict(
+    kind='native', drivers=['p_c14.cpp'], with_lib=True, **_DAEMON, runtime_opts=_xrun_opts,
+    level='exploration',
+    technique='end-to-end property-based testing over generated limits: serialiser -> echsd harness -> the real echsx process with alarm() logged and scaled by an LD_PRELOAD shim (rapidcheck)',
+    level_text=('For each generated limit (DTEND, DURATION in ISO forms with weeks/days/hours/minutes/seconds and combinations, or DUE) the user event is serialised the way echsq sends it, submitted to the '
+                'echsd harness, and the VTODO echsd hands to the executor is (a) checked to carry the limit as an RFC 5545 duration by an independent parser and (b) fed verbatim (only uid/gid, directory and '
+                'job text replaced) to the echsx binary built from the tree. The shim logs the seconds passed to alarm() -- they must equal the limit (+1 s rounding) -- and scales the timer so that the kill '
+                'of a long job (X-SIGNAL in the journal, lifetime) and the undisturbed end of a short job are observed for limits up to weeks; overdue DUE requests must not run the job.'),
+    level_note='the SIGALRM->SIGXCPU path runs for real but on a scaled timer; wall-clock bounds are generous (kill expected near 0.5 s, failure beyond 1.8 s) and only reported together with the logged alarm value',
+    rule=('case = (form in {dtend, dura, due}, limit 1 s .. ~17 days, ISO spelling, long or short job); non-trivial = every case that reaches the executor; classes: form, limit bucket, killed-by-deadline / finished-early / overdue-refused'),
+    assumptions=['DUE is exercised on echsx only (echsd never writes DUE)', 'uid/gid, working directory and job text of the request are replaced by ones valid in the sandbox'],
+    quick=dict(workers=16, cases=40, size=100, timeout=1500),
+    thorough=dict(workers=16, cases=600, size=100, timeout=7200),
 )
